@@ -192,6 +192,30 @@ class Built:
     kwargs: tuple
 
 
+class StructLeaf(AxArr):
+    """A leaf of a *structure* (jax.ShapeDtypeStruct stand-in): behaves like an array when a kernel is evaluated on it
+    (eval_shape), and compares by shape like a ShapeDtypeStruct."""
+
+    def __eq__(self, other: Any) -> bool:
+        return isinstance(other, AxArr) and other.shape == self.shape
+
+    def __ne__(self, other: Any) -> bool:
+        return not self.__eq__(other)
+
+    def __hash__(self) -> int:
+        return hash(self.shape)
+
+
+def as_structure(v: Any) -> Any:
+    if isinstance(v, AxArr):
+        return StructLeaf(v.axes, v.dtype)
+    if isinstance(v, (list, tuple)):
+        return type(v)(as_structure(x) for x in v)
+    if isinstance(v, dict):
+        return {k: as_structure(x) for k, x in v.items()}
+    return v
+
+
 @dataclass(frozen=True)
 class Flat:
     """A ravelled array (what was ravelled is kept for inspection)."""
@@ -342,11 +366,37 @@ def reshape(a: AxArr, shape: Any) -> Any:
     old_ns = [(l, s) for l, s in a.axes if s != 1]
     new_ns = [s for s in shape if s != 1]
     if [s for _, s in old_ns] != new_ns:
-        if len(shape) == 1:
-            return Flat(a)
-        raise Undecided('reshape merges or splits axes')
+        merged = _merge_runs(old_ns, new_ns)
+        if merged is None:
+            if len(shape) == 1:
+                return Flat(a)
+            raise Undecided('reshape splits axes')
+        it = iter(merged)
+        return AxArr(tuple((frozenset(), 1) if s == 1 else next(it) for s in shape), a.dtype)
     it = iter(old_ns)
-    return AxArr(tuple((frozenset(), 1) if s == 1 else next(it) for s in shape))
+    return AxArr(tuple((frozenset(), 1) if s == 1 else next(it) for s in shape), a.dtype)
+
+
+def _merge_runs(old_ns: list, new_ns: list) -> list | None:
+    """Row-major reshape that only merges runs of consecutive axes: each new axis is one old axis or the merge of a run of
+    them (label 'a*b*c', in that order).  None if an axis would have to be split."""
+    out = []
+    i = 0
+    for s in new_ns:
+        if i >= len(old_ns):
+            return None
+        labels, size = old_ns[i]
+        names = ['.'.join(sorted(labels))]
+        i += 1
+        while size < s and i < len(old_ns):
+            l2, s2 = old_ns[i]
+            size *= s2
+            names.append('.'.join(sorted(l2)))
+            i += 1
+        if size != s:
+            return None
+        out.append((frozenset({'*'.join(names)}) if len(names) > 1 else labels, s))
+    return out if i == len(old_ns) else None
 
 
 def squeeze(a: AxArr, axis: Any = None) -> AxArr:
@@ -1464,6 +1514,8 @@ class Interp:
                     v = (left is right) if isinstance(o, ast.Is) else (left is not right)
             elif left is UNK or right is UNK:
                 v = UNK
+            elif (isinstance(left, StructLeaf) or isinstance(right, StructLeaf)) and isinstance(o, (ast.Eq, ast.NotEq)):
+                v = (left == right) if isinstance(o, ast.Eq) else (left != right)
             elif isinstance(left, AxArr) or isinstance(right, AxArr):
                 arrs = [x for x in (left, right) if isinstance(x, AxArr)]
                 return broadcast(arrs)
